@@ -19,15 +19,24 @@ import (
 
 // ---------------------------------------------------------------- C05: TLS identity rules
 
-// File and key-material helpers (library wrappers; trusted, listed): a result
-// or an error.
+// newCertPool: "a peer certificate that does not chain to the configured CA is
+// refused": the pool handed to the TLS configuration starts empty (never from
+// the operating system's trust store) and gets the certificates of the
+// configured CA file, nothing else; a pool or an error.
 //
 //verif:contract ~/pkg/transport.newCertPool
-//verif:trusted
+//verif:props C05
 //verif:modifies
 func verif_newCertPool(caPath string) {
+	verif.ResetEvents()
 	pool, err := newCertPool(caPath)
+	verif.Assume(!verif.Called("x509.NewCertPool") || verif.Ret[*x509.CertPool]("x509.NewCertPool", 0) != nil, "crypto/x509: NewCertPool returns a pool")
 	verif.Ensures((err == nil) == (pool != nil), "pool_or_error")
+	verif.Ensures(!verif.Called("x509.SystemCertPool"), "never_the_system_trust_store")
+	if err == nil {
+		verif.Ensures(verif.CallCount("x509.NewCertPool") == 1 && pool == verif.Ret[*x509.CertPool]("x509.NewCertPool", 0), "pool_starts_empty")
+		verif.Ensures(verif.CalledWith("os.ReadFile", 0, caPath) && verif.CallCount("CertPool).AppendCertsFromPEM") == 1 && verif.CalledWith("CertPool).AppendCertsFromPEM", 0, pool) && verif.Same(verif.NthArg[[]byte]("CertPool).AppendCertsFromPEM", 0, 1), verif.Ret[[]byte]("os.ReadFile", 0)), "only_the_configured_ca_file_is_added")
+	}
 }
 
 //verif:contract ~/pkg/transport.newCustomTLSKeyPair
